@@ -47,7 +47,9 @@ KEEP == [t |-> "k", cls |-> "keep", w |-> 0, len |-> 0]   \* SET list: column no
 
 \* fill classes get their length from the rest of the row (-1 = not yet known)
 FillTarget(c) == CASE c = "f399" -> 399 [] c = "f400" -> 400 [] c = "f401" -> 401 [] OTHER -> 0
+\* sp3 / sp4: two fixed texts that differ only in a run of blanks inside them ("a b", "a  b")
 StrVal(c) == CASE c = "l0" -> SV(c, 0) [] c = "l1" -> SV(c, 1) [] c = "l150" -> SV(c, 150) [] c = "l300" -> SV(c, 300)
+               [] c = "sp3" -> SV(c, 3) [] c = "sp4" -> SV(c, 4)
                [] OTHER -> SV(c, 0 - 1)
 IsFill(v) == v.t = "s" /\ v.len < 0
 
